@@ -1,7 +1,7 @@
 (* C08 -- the merkle tree listing is an exact, history-independent function of content.
-   Property theorems only; proofs live in proofs/HTreeProofs.v. *)
+   Property theorems only; proofs live in proofs/HTreeProofs.v (leaves) and proofs/HTreeInner.v (inner nodes, listings). *)
 From Coq Require Import NArith ZArith List Bool Sorting.Permutation.
-From GB Require Import Consts Words KeyPath HTree CheckC08 HTreeProofs.
+From GB Require Import Consts Words KeyPath HTree CheckC08 HTreeProofs HTreeInner.
 Import ListNotations.
 Open Scope N_scope.
 
@@ -34,6 +34,41 @@ Theorem C08_hash_update_exact : forall S vo vn g, vo < 65536 -> vo * g <= S ->
   w16 (S mod 65536 + w16 (w16 (vn + 65536 - vo) * g)) = (S - vo * g + vn * g) mod 65536.
 Proof. exact hash_update. Qed.
 Print Assumptions C08_hash_update_exact.
+
+(* (3) INNER NODES AND LISTINGS.  Histories may now contain LISTINGS at any position (listDir runs updateNodes, which
+   recomputes and marks nodes).  For ALL tree shapes (depth <= 8, height 1..8) and ALL such histories both invariants
+   hold at the end: LInv (1) and VInv -- every inner node marked "updated" holds exactly sp, the aggregate of the
+   leaf-level summaries beneath it (count = sum mod 2^32, hash = the *97 fold of updateNodes), and a node marked
+   updated has only updated children (invalidation always runs from the root down the whole path of a changed leaf). *)
+Theorem C08_history_invariants : forall G d h ops, (1 <= h <= 8)%nat -> (d <= 8)%nat ->
+  (forall o, In o ops -> hop_ok G (new_tree d h) o) ->
+  let t := fold_left apply_hop ops (new_tree d h) in LInv G t /\ VInv t /\ t_depth t = d /\ t_height t = h.
+Proof. exact hist_inv. Qed.
+Print Assumptions C08_history_invariants.
+
+(* (4) what updateNodes / a node-level listing REPORT on such a tree is the specification: the root summary is
+   sp over the whole tree, and a listing that answers with 16 (hash, count) pairs answers with the sp values of
+   the 16 children -- never a stale cached value. *)
+Theorem C08_root_is_aggregate : forall t, VInv t -> pr (snd (tree_update t)) = sp (t_height t - 1) t 0 0.
+Proof. exact tree_update_spec. Qed.
+Print Assumptions C08_root_is_aggregate.
+
+Theorem C08_node_listing_is_aggregate : forall t path ns, VInv t -> Forall (fun d => d < 16) path -> snd (list_dir t path) = LNodes ns ->
+  (dir_level t path < t_height t - 1)%nat /\
+  ns = map (fun i => let c := sp (t_height t - 1 - S (dir_level t path)) t (S (dir_level t path)) (dir_offset t path * 16 + i) in (snd c, fst c)) idx16.
+Proof. exact list_dir_nodes_spec. Qed.
+Print Assumptions C08_node_listing_is_aggregate.
+
+(* (5) HISTORY INDEPENDENCE AT EVERY NODE: two trees of the same shape that satisfy the invariants (by (3): whatever
+   histories of sets, removals and listings produced them) and hold the same items in every leaf, in any order,
+   report identical node-level listings at every prefix and identical root summaries. *)
+Theorem C08_listings_history_independent : forall G t t' path ns ns',
+  LInv G t -> LInv G t' -> VInv t -> VInv t' -> t_depth t' = t_depth t -> t_height t' = t_height t ->
+  (forall lo, Permutation (get_leaf t lo) (get_leaf t' lo)) -> Forall (fun d => d < 16) path ->
+  (snd (list_dir t path) = LNodes ns -> snd (list_dir t' path) = LNodes ns' -> ns = ns') /\
+  pr (snd (tree_update t)) = pr (snd (tree_update t')).
+Proof. exact node_listing_history_independent. Qed.
+Print Assumptions C08_listings_history_independent.
 
 (* non-vacuity: two histories with equal final content (B overwrites, deletes and re-sets) over hashes in one
    leaf and in different leaves; both satisfy the hypotheses of (1); their leaf summaries agree *)
